@@ -2,6 +2,11 @@
 use crate::world::*;
 use futures::future::BoxFuture;
 use futures::FutureExt;
+use std::collections::BTreeMap;
+use std::future::Future;
+use std::pin::Pin;
+use std::sync::Mutex;
+use std::task::{Context, Poll};
 use std::time::Duration;
 use tower::Service;
 use tower_resilience_circuitbreaker::{
@@ -11,6 +16,50 @@ use tower_resilience_circuitbreaker::{
 pub struct Adapter {
     call: Box<dyn FnMut(Req) -> Option<CallFut>>,
     ctl: Box<dyn Fn(&str) -> String>,
+}
+
+/// Scripted behaviour of the fallback of caller `c` (`arrive <c> … fb=<lat>:<ok|errK|panic|never>`, default `0:ok`):
+/// the fallback is a future of its own (a replica read, a remote cache) that need not finish on its first poll.
+static FB: Mutex<BTreeMap<usize, Step>> = Mutex::new(BTreeMap::new());
+
+/// The fallback's future. `fallback_call c` is logged when the handler is invoked (latency counts from there),
+/// `fallback_drop c` when the future is dropped before it finished; its value is the caller's result.
+struct FbFut {
+    sleep: Option<Pin<Box<tokio::time::Sleep>>>,
+    c: usize,
+    tag: u64,
+    out: Out,
+    done: bool,
+}
+impl Future for FbFut {
+    type Output = Result<Resp, IErr>;
+    fn poll(mut self: Pin<&mut Self>, cx: &mut Context<'_>) -> Poll<Self::Output> {
+        if self.done {
+            panic!("fallback future polled after completion");
+        }
+        if self.out == Out::Never || self.out == Out::Hog {
+            return Poll::Pending;
+        }
+        if let Some(s) = self.sleep.as_mut() {
+            if s.as_mut().poll(cx).is_pending() {
+                return Poll::Pending;
+            }
+        }
+        self.done = true;
+        let c = self.c;
+        match self.out {
+            Out::Ok => Poll::Ready(Ok(Resp { v: 900_000 + c as u64, c, tag: self.tag })),
+            Out::Err(kind) => Poll::Ready(Err(IErr { kind, v: c as u64 })),
+            _ => panic!("scripted fallback panic"),
+        }
+    }
+}
+impl Drop for FbFut {
+    fn drop(&mut self) {
+        if !self.done {
+            log(format!("fallback_drop {}", self.c));
+        }
+    }
 }
 
 fn frac(kv: &Kv, k: &str, d: (u64, u64)) -> f64 {
@@ -43,29 +92,22 @@ fn views(state: CircuitState, sync: CircuitState, is_open: bool, m: CircuitMetri
     )
 }
 
+const BLOCKED: &str = "blocked";
+
 macro_rules! controls {
     ($svc:expr) => {{
         let svc = $svc.clone();
         Box::new(move |what: &str| -> String {
             match what {
-                "force_open" => {
-                    svc.force_open().now_or_never().expect("lock");
-                    String::new()
-                }
-                "force_closed" => {
-                    svc.force_closed().now_or_never().expect("lock");
-                    String::new()
-                }
-                "reset" => {
-                    svc.reset().now_or_never().expect("lock");
-                    String::new()
-                }
-                _ => views(
-                    svc.state().now_or_never().expect("lock"),
-                    svc.state_sync(),
-                    svc.is_open(),
-                    svc.metrics().now_or_never().expect("lock"),
-                ),
+                // an observer / operator is never made to wait by the breaker: each of these takes the breaker's mutex
+                // for one short critical section. "blocked" = the mutex is held across somebody's await.
+                "force_open" => svc.force_open().now_or_never().map_or(BLOCKED.to_string(), |_| String::new()),
+                "force_closed" => svc.force_closed().now_or_never().map_or(BLOCKED.to_string(), |_| String::new()),
+                "reset" => svc.reset().now_or_never().map_or(BLOCKED.to_string(), |_| String::new()),
+                _ => match (svc.state().now_or_never(), svc.metrics().now_or_never()) {
+                    (Some(state), Some(m)) => views(state, svc.state_sync(), svc.is_open(), m),
+                    _ => BLOCKED.to_string(),
+                },
             }
         }) as Box<dyn Fn(&str) -> String>
     }};
@@ -92,6 +134,7 @@ macro_rules! caller {
 
 impl Adapter {
     pub fn new(kv: &Kv) -> Adapter {
+        FB.lock().unwrap_or_else(|e| e.into_inner()).clear();
         let cls = kv.u64("cls", 0);
         let mut b = CircuitBreakerLayer::builder()
             .failure_rate_threshold(frac(kv, "fr", (1, 2)))
@@ -115,7 +158,10 @@ impl Adapter {
         }
         let fallback = kv.u64("fallback", 0) == 1;
         let fb = |req: Req| -> BoxFuture<'static, Result<Resp, IErr>> {
-            Box::pin(async move { Ok(Resp { v: 900_000 + req.c as u64, c: req.c, tag: req.tag }) })
+            let step = FB.lock().unwrap_or_else(|e| e.into_inner()).remove(&req.c).unwrap_or(Step { lat: 0, out: Out::Ok });
+            log(format!("fallback_call {}", req.c));
+            let sleep = if step.lat > 0 { Some(Box::pin(tokio::time::sleep(Duration::from_millis(step.lat)))) } else { None };
+            Box::pin(FbFut { sleep, c: req.c, tag: req.tag, out: step.out, done: false })
         };
         if cls == 0 {
             let svc = b.build().layer_fn(Inner::new());
@@ -146,6 +192,9 @@ impl Adapter {
 
 impl Mw for Adapter {
     fn arrive(&mut self, c: usize, kv: &Kv) -> Option<CallFut> {
+        if let Some(step) = kv.get("fb").and_then(|s| parse_plan(s).pop_front()) {
+            FB.lock().unwrap_or_else(|e| e.into_inner()).insert(c, step);
+        }
         (self.call)(Req::new(c, kv))
     }
     fn probe(&mut self, what: &str, _kv: &Kv) {
@@ -154,6 +203,8 @@ impl Mw for Adapter {
     }
     fn manual(&mut self, what: &str, _kv: &Kv) {
         log(format!("manual {}", what));
-        (self.ctl)(what);
+        if (self.ctl)(what) == BLOCKED {
+            log(format!("manual_blocked {}", what));
+        }
     }
 }
